@@ -852,6 +852,35 @@ func (e *fnEnc) evalCall(x *ECall, env *specEnv) SVal {
 		comp, cs := e.elemCompT(types.Typ[types.Uint8])
 		arr := sel(e.heapGet(env.st, comp, cs), slBase(a.t), ArrayOf(SInt, SInt))
 		return SVal{t: app(SStr, "mk-str", arr, slOff(a.t), slLen(a.t)), typ: types.Typ[types.String]}
+	case "funcIs":
+		// funcIs(fn, pkg.Name, ...): the function value is one of the named functions
+		if len(x.Args) < 2 {
+			e.fail("funcIs(fn, names...)")
+		}
+		fv := e.evalSpec(x.Args[0], env)
+		var cs []Term
+		for _, a := range x.Args[1:] {
+			nm := qualifyFuncName(env.pkg, e.resolvePkgAlias(env.pkg, a.String()))
+			cs = append(cs, eq(app(SInt, e.funcidFun(), fv.t), intLit(int64(e.eng.funcID(nm)))))
+		}
+		return SVal{t: or(cs...)}
+	case "funcRecv":
+		// funcRecv(fn, *T): the receiver bound in a method value
+		a := args()
+		v := SVal{t: app(SInt, e.funcrecvFun(), a[0].t)}
+		if len(a) == 2 && a[1].tyArg != nil {
+			v.typ = a[1].tyArg
+		}
+		return v
+	case "ediv", "emod":
+		// Euclidean division on mathematical integers (SMT-LIB div/mod)
+		need(2)
+		a := args()
+		f := "div"
+		if id.Name == "emod" {
+			f = "mod"
+		}
+		return SVal{t: app(SInt, f, e.intOf(a[0]), e.intOf(a[1]))}
 	case "baseOf":
 		need(1)
 		return SVal{t: slBase(args()[0].t)}
@@ -1038,4 +1067,28 @@ func (e *fnEnc) useAxiom(ax *Lemma) {
 	t := e.evalBool(ax.E, n)
 	e.assertGlobal(t)
 	e.assume("axiom " + ax.Name + ": " + ax.Text)
+}
+
+// resolvePkgAlias turns "apd.(*Context).Add" into "github.com/.../apd/v3.(*Context).Add"
+// using the imports of pkg.
+func (e *fnEnc) resolvePkgAlias(pkg, name string) string {
+	name = strings.ReplaceAll(name, " ", "")
+	k := strings.Index(name, ".")
+	if k <= 0 || strings.Contains(name[:k], "/") || strings.HasPrefix(name, "(") {
+		return name
+	}
+	alias := name[:k]
+	if p, ok := e.eng.pkgs[pkg]; ok {
+		for ip, imp := range p.Imports {
+			if imp.Name == alias {
+				return ip + name[k:]
+			}
+		}
+	}
+	for ip, p := range e.eng.pkgs {
+		if p.Name == alias {
+			return ip + name[k:]
+		}
+	}
+	return name
 }
